@@ -100,7 +100,8 @@ def evaluate(cfg, ev, hung):
         lost = [e[1] for e in taken if e[1] not in c]
         if lost: f.append(f"C01/C05: messages {lost} were taken from the broker but never executed (taken {len(taken)}, executed {len(c)})")
         if finite and wtt is None:
-            running_at_return = [e[1] for e in starts if not any(x[0] == 'acked' and x[1] == e[1] for x in ev)]
+            upto = ev[:ev.index(returned)]          # what happened BEFORE listen() returned (afterwards the driver cancels whatever is left)
+            running_at_return = [e[1] for e in starts if not any(x[0] == 'acked' and x[1] == e[1] for x in upto)]
             if running_at_return: f.append(f"C05: listen() returned while accepted tasks {running_at_return} had not completed (no wait_tasks_timeout)")
     if stop is not None:
         after = [e for e in taken if e[2] > stop[2]]
@@ -130,7 +131,7 @@ def run(sc):
                             for arrivals in (None, [0.0, 0.25, 3.0]):
                                 if stop_at is None and not N: continue
                                 cfgs.append(dict(A=A, P=P, N=N or None, backlog=(A or 3) + P + (N or 0) + 5, durs=durs, stop_at=stop_at, wtt=wtt, arrivals=arrivals, fault=None))
-                                if arrivals is None and durs in ([1.0], [0.5, 30.0, 2.0]) and wtt is None and stop_at in (50.0, 1000.2):
+                                if arrivals is None and durs in ([1.0], [0.5, 30.0, 2.0]) and wtt is None and stop_at is not None:
                                     for fault in ('sentinel_payload', 'ack_raises'):
                                         cfgs.append(dict(A=A, P=P, N=N or None, backlog=(A or 3) + P + (N or 0) + 5, durs=durs, stop_at=stop_at, wtt=wtt, arrivals=arrivals, fault=fault))
     fails = []; n = 0; stats = []
